@@ -79,3 +79,20 @@ def d50_fsspec_userfilter_divisions_keyerror(case, rec):
     """C18: fsspec reader + calculate_divisions + user filters= -> KeyError 'name' from dask's sorted_columns."""
     return (rec.get("kind") in ("query-raises", "read-raises") and rec.get("reader") == "fsspec" and rec.get("exc_type") == "KeyError"
             and "'name'" in str(rec.get("exc_msg", "")) and bool(case.get("calc_div")) and "user filters" in str(rec.get("detail", "")))
+
+
+def d69_groupby_cov_missing_values(case, rec):
+    """C02: groupby cov()/corr() as the final operation over columns that contain missing values
+    (pinned dask's _cov_chunk/_cov_finalizer mix per-column sums with pairwise products)."""
+    if rec.get("kind") != "differs-from-pandas":
+        return False
+    prog, last = _last_step(case)
+    if last is None or last["op"] != "groupby_holistic" or last["args"].get("how") not in ("cov", "corr"):
+        return False
+    try:
+        from . import interp
+
+        x = interp.run_pandas(prog)[last["in"][0]]
+        return bool(x[list(last["args"]["cols"])].isna().any().any())
+    except Exception:
+        return False
